@@ -1,6 +1,10 @@
 """Per-family configuration of the correspondence harness (see DESIGN.md §2)."""
 
+import os
+import instr
+
 COMMON = ["zz_vf_common_test.go"]
+REPO = os.environ.get("VERIF_REPO", "/repo")
 
 FAMILIES = {
     "queue": {
@@ -179,11 +183,13 @@ FAMILIES["cluster"] = {
     "name": "cluster", "props": ["C03", "C04", "C05"], "models": "Cursor.v (probe schedule); detection bound of Cursor_proofs.v",
     "harness": COMMON + ["zz_vf_cluster_test.go"], "test": "TestVfCluster",
     "n": {"quick": 24, "thorough": 1200},
-    "no_shrink": True, "env": {"VF_SHARD": "40"},
+    "no_shrink": True, "env": {"VF_SHARD": "6", "VF_INSTR": "1"},
+    "overlay_extra": lambda workdir: instr.instrument(REPO, workdir),
     "codes": [(520, 529, ["C05"]), (530, 539, ["C03"]), (540, 549, ["C04"])],
     "code_names": {1: "undecodable case", 2: "recorded suspicionTimeout is not what util.go computes",
                    60: "probe cursor: the next probe differs from the Cursor model (stable membership)",
                    61: "probe cursor: the node list was reordered without a wrap", 62: "probe cursor: the model selects nobody but the implementation probed",
+                   63: "a node's linearised operation log (instrumented aliveNode / suspectNode / deadNode / resetNodes of a simulated cluster) replayed through Core.step does not give the node's records",
                    520: "C05: views did not converge within the settling time although the fresh-alive graph was connected when faults stopped",
                    522: "C05: a node holds a record of a member at an incarnation above every counter that member ever reached (C05_claims_below_owner / C05_claims_below_history)",
                    523: "C05: a stream write to an unresponsive host was still blocked long after every deadline (the periodic push/pull goroutine of that node is stuck: its anti-entropy has stopped)",
